@@ -56,6 +56,8 @@
 #include <unistd.h>
 
 using namespace Opm;
+#include "units_quantities.hpp"
+
 namespace fs = std::filesystem;
 using M = UnitSystem::measure;
 
@@ -861,6 +863,25 @@ int main(int argc, char** argv) {
                     sink.count("fieldprops");
                 }
         }
+        // round 5: the hand-written quantity tables (harness/units_quantities.cpp).  The numbers of QUANTITIES
+        // against the Lean specification's composition of each quantity (exact rational, 8 roundings allowed),
+        // and the named item table against the translator's copy of it.
+        {
+            for (const auto& q : uq::QUANTITIES)
+                for (int t = 0; t < 4; ++t) {
+                    sink.emit("units.quant_q " + sysId(UnitSystem(ALL_TYPES[t])) + " " + q.name + " " + fbits(q.scale[t]) + " " + fbits(q.offset[t]), "ok");
+                    sink.count("quantity");
+                }
+            sink.emit("units.quant_q 1 NoSuchQuantity " + fbits(1.0) + " " + fbits(0.0), "unknown");
+            sink.emit("units.itemqcount", std::to_string(uq::ITEM_QUANTITIES.size()));
+            for (const auto& e : uq::ITEM_QUANTITIES) {
+                std::string j;
+                for (const auto& q : e.q) j += (j.empty() ? "" : ",") + q;
+                sink.emit("units.itemq " + e.key, j);
+                sink.count("itemq");
+            }
+            sink.emit("units.itemq NOSUCH.0.ITEM", "none");
+        }
         sink.writeStats(outdir + "/stats.json");
         return 0;
     }
@@ -1200,6 +1221,151 @@ int main(int argc, char** argv) {
                     stats["uda_dim"]++;
                 }
             }
+        }
+        // (l) round 5: independent keyword item -> physical quantity knowledge.  Every template of
+        // harness/units_quantities.cpp (a keyword as the manual lays it out, <Quantity> tokens) is written with
+        // the SAME physical values in METRIC, FIELD, LAB and PVT-M using the harness's own factors, parsed by the
+        // real parser, and every value that was given must come out of getSIDouble / UDAValue::getSI as
+        // value x (independent factor) (+ offset) — hence equal in the four systems; the item the parser put the
+        // value into must carry that quantity in the hand-written named table ITEM_QUANTITIES.
+        {
+            std::map<std::string, const uq::Quantity*> Q;
+            for (const auto& q : uq::QUANTITIES) Q[q.name] = &q;
+            std::map<std::string, const uq::ItemQ*> IQ;
+            for (const auto& e : uq::ITEM_QUANTITIES) IQ[e.key] = &e;
+            std::set<std::string> covered;
+            const char* SECTIONS[] = { "GRID", "EDIT", "PROPS", "SOLUTION", "SCHEDULE" };
+            const int ndraw = thorough ? 60 : 4;
+            struct Tok { std::string q; double si; };
+            struct Got { std::string key; size_t col; double si; };
+            for (int k = 0; k < ndraw; ++k) {
+                // draw the physical (SI) values once
+                std::map<std::string, std::vector<Tok>> toks;
+                bool templOk = true;
+                for (const auto& tp : uq::TEMPLATES) {
+                    auto& v = toks[tp.kw];
+                    for (size_t p = tp.text.find('<'); p != std::string::npos; p = tp.text.find('<', p + 1)) {
+                        const size_t e = tp.text.find('>', p);
+                        const std::string qn = tp.text.substr(p + 1, e - p - 1);
+                        if (!Q.count(qn)) { log.fail("quantity.template." + tp.kw, "unknown quantity " + qn); templOk = false; break; }
+                        double si;
+                        if (qn == "Temperature") si = 280.0 + 120.0 * rng.unit();
+                        else if (qn == "Dimensionless") si = 0.05 + 0.9 * rng.unit();
+                        else si = Q[qn]->scale[0] * std::exp(std::log(0.2) + std::log(500.0) * rng.unit());   // 0.2 .. 100 metric units
+                        v.push_back({ qn, si });
+                    }
+                }
+                if (!templOk) break;
+                for (int t = 0; t < 4; ++t) {
+                    UnitSystem u(ALL_TYPES[t]);
+                    std::ostringstream o;
+                    std::map<std::string, std::vector<std::string>> rawText;
+                    o << "RUNSPEC\n" << u.deck_name() << "\nDIMENS\n 2 2 1 /\nOIL\nWATER\nGAS\nDISGAS\nVAPOIL\nTABDIMS\n/\nEQLDIMS\n/\nWELLDIMS\n 4 3 2 4 /\nAQUDIMS\n/\nVFPPDIMS\n/\nVFPIDIMS\n/\n";
+                    for (const char* sec : SECTIONS) {
+                        o << sec << "\n";
+                        for (const auto& tp : uq::TEMPLATES) {
+                            if (tp.section != sec) continue;
+                            size_t n = 0, last = 0;
+                            for (size_t p = tp.text.find('<'); p != std::string::npos; p = tp.text.find('<', p + 1)) {
+                                const size_t e = tp.text.find('>', p);
+                                const Tok& tk = toks[tp.kw][n++];
+                                const uq::Quantity& q = *Q[tk.q];
+                                const std::string raw = g17((tk.si - q.offset[t]) / q.scale[t]);
+                                rawText[tp.kw].push_back(raw);
+                                o << tp.text.substr(last, p - last) << raw;
+                                last = e + 1;
+                            }
+                            o << tp.text.substr(last);
+                        }
+                    }
+                    const std::string text = o.str();
+                    const std::string dump = outdir + "/quantity_deck_" + std::to_string(k) + "_" + u.deck_name() + ".DATA";
+                    try {
+                        Parser parser;
+                        ParseContext pc; ErrorGuard eg;
+                        auto deck = parser.parseString(text, pc, eg);
+                        for (const auto& tp : uq::TEMPLATES) {
+                            std::vector<Got> got;
+                            const ParserKeyword& pkw = parser.getKeyword(tp.kw);
+                            const size_t npr = std::distance(pkw.begin(), pkw.end());
+                            size_t occurrences = 0;
+                            for (const auto& dkw : deck) {
+                                if (dkw.name() != tp.kw) continue;
+                                ++occurrences;
+                                for (size_t r = 0; r < dkw.size(); ++r) {
+                                    const auto& rec = dkw.getRecord(r);
+                                    const size_t recIdx = npr <= 1 ? 0 : std::min(r, npr - 1);
+                                    for (size_t j = 0; j < rec.size(); ++j) {
+                                        const auto& item = rec.getItem(j);
+                                        const bool isD = item.getType() == type_tag::fdouble, isU = item.getType() == type_tag::uda;
+                                        if (!isD && !isU) continue;
+                                        const size_t nd = pkw.getRecord(recIdx).get(item.name()).dimensions().size();
+                                        const std::string key = tp.kw + "." + std::to_string(recIdx) + "." + item.name();
+                                        for (size_t i = 0; i < item.data_size(); ++i) {
+                                            if (item.defaultApplied(i)) continue;
+                                            if (nd == 0) {            // a number was given to an item without dimension
+                                                if (IQ.count(key)) got.push_back({ key, 0, std::nan("") });
+                                                continue;
+                                            }
+                                            double si;
+                                            if (isD) si = item.getSIDouble(i);
+                                            else {
+                                                const auto& uda = item.get<UDAValue>(i);
+                                                if (!uda.is<double>()) continue;
+                                                si = uda.getSI();
+                                            }
+                                            got.push_back({ key, i % nd, si });
+                                        }
+                                    }
+                                }
+                            }
+                            const auto& want = toks[tp.kw];
+                            if (occurrences != 1 || got.size() != want.size()) {
+                                vh::spit(dump, text);
+                                log.fail("quantity.shape." + tp.kw, u.getName() + ": the template gives " + std::to_string(want.size()) + " numbers, the parsed keyword (" +
+                                         std::to_string(occurrences) + " occurrence(s)) has " + std::to_string(got.size()) + " given dimensioned values; deck " + dump);
+                                continue;
+                            }
+                            for (size_t i = 0; i < got.size(); ++i) {
+                                const auto& g = got[i];
+                                const auto it = IQ.find(g.key);
+                                const std::string named = it == IQ.end() ? "(not listed)" : g.col < it->second->q.size() ? it->second->q[g.col] : "(no such column)";
+                                if (named != want[i].q) {
+                                    log.fail("quantity.table." + g.key, "number " + std::to_string(i) + " of the " + tp.kw + " template is a " + want[i].q +
+                                             " but lands in " + g.key + " column " + std::to_string(g.col) + ", which ITEM_QUANTITIES lists as " + named);
+                                    continue;
+                                }
+                                covered.insert(g.key + "#" + std::to_string(g.col));
+                                const uq::Quantity& q = *Q[want[i].q];
+                                // derived tolerance: 17-digit text is exact; one division, the real factor (a few
+                                // roundings in its constant expression), one multiplication, one addition
+                                if (!closeRel(g.si, want[i].si, 64, std::fabs(q.offset[t]))) {
+                                    vh::spit(dump, text);
+                                    log.fail("quantity.si." + g.key + "." + std::to_string(g.col),
+                                             u.getName() + ": " + want[i].q + " " + g17(want[i].si) + " (SI) written as " + rawText[tp.kw][i] + " comes out of the deck as " +
+                                             g17(g.si) + " (independent factor " + g17(q.scale[t]) + ", offset " + g17(q.offset[t]) + "); deck " + dump);
+                                } else log.ok();
+                                stats["quantity_values"]++;
+                            }
+                        }
+                    } catch (const std::exception& e) {
+                        vh::spit(dump, text);
+                        log.fail("quantity.deck_exception." + u.getName(), std::string(typeid(e).name()) + "; deck " + dump);
+                    }
+                    stats["quantity_decks"]++;
+                }
+            }
+            // every column of the named table is reached by some template ("ContextDependent" has no SI value)
+            long ncols = 0;
+            for (const auto& e : uq::ITEM_QUANTITIES)
+                for (size_t c = 0; c < e.q.size(); ++c) {
+                    ++ncols;
+                    if (e.q[c] == "ContextDependent") continue;
+                    if (!covered.count(e.key + "#" + std::to_string(c))) log.fail("quantity.untested." + e.key, "column " + std::to_string(c) + " is reached by no template");
+                    else log.ok();
+                }
+            stats["quantity_item_columns"] = ncols;
+            stats["quantity_items"] = static_cast<long>(uq::ITEM_QUANTITIES.size());
         }
         stats["pending_findings"] = log.pending;
         std::ofstream f(outdir + "/prop_stats.json");
